@@ -538,6 +538,12 @@ class Executor(object):
             return self.identical(b, a, path)
         if a.ty in hp.REF_TYPES and b.ty in hp.REF_TYPES:
             return a.t == b.t
+        if a.ty == 'H' and b.ty == 'H':
+            # identity of two hashable VALUES (strings, numbers, tuples): implies equality, is not implied by it
+            # (interning is an implementation detail) - an unconstrained Boolean below equality
+            same = hp.fresh('same_object', z3.BoolSort())
+            path.pc.append(z3.Implies(same, a.t == b.t))
+            return same
         raise Unsupported('identity test %s is %s' % (a.ty, b.ty))
 
     def ev_BoolOp(self, e, path):
